@@ -37,6 +37,7 @@ func pseudoObs(in *pseudoIn) (map[string]any, string, time.Time) {
 	major, older, rev := concrete.Str(in.Major), concrete.Str(in.Older), concrete.Str(in.Rev)
 	pv := module.PseudoVersion(major, older, local, rev)
 	obs := map[string]any{"pv": concrete.Ints(pv), "ispseudo": module.IsPseudoVersion(pv), "valid": semver.IsValid(pv)}
+	obs["iszero"], obs["zero"] = module.IsZeroPseudoVersion(pv), concrete.Ints(module.ZeroPseudoVersion(major))
 	base, err := module.PseudoVersionBase(pv)
 	obs["baseok"] = err == nil
 	if err != nil {
